@@ -22,6 +22,11 @@ DOCS = [
     '<tag attr="1">text</tag>',
     'unicode é世界',
     'trailing dash -',
+    'a rule --- in the middle',
+    '---- four and a long arrow ---> here',
+    '-----',
+    '- -- --- ---- -',
+    'two lines\n-- second -->',
     '&amp; already escaped &lt;',
 ]
 
